@@ -136,7 +136,7 @@ contract('IOManager._send',
                   ('C11', 'duration', SEND_DUR),
                   'G.now >= old(G.now) and G.cpu >= old(G.cpu)'],
          raises={'struct.error': [('C02', 'unframeable-writes-nothing', 'G.wire == old(G.wire) and G.nwrites == old(G.nwrites) and G.peer_rx == old(G.peer_rx)'),
-                                  'G.now >= old(G.now) and G.cpu >= old(G.cpu)'],
+                                  ('C11', 'duration', SEND_DUR), 'G.now >= old(G.now) and G.cpu >= old(G.cpu)'],
                  'AdbTimeoutError': [('C11', 'duration', SEND_DUR), 'G.now >= old(G.now) and G.cpu >= old(G.cpu)'],
                  '*': [('C11', 'duration', SEND_DUR), 'G.now >= old(G.now) and G.cpu >= old(G.cpu)']},
          call_asserts={'IOManager._write_bytes_to_device': [('C02', 'header-first-then-payload-only-if-nonempty',
@@ -206,10 +206,10 @@ contract('IOManager.read',
          # rely (C06): other readers park packets for this stream only while THEY hold the transport lock, and nobody else consumes this
          # stream's parked packets (one reader per stream).  So "is a packet parked for me" is stable exactly while this reader holds
          # the transport lock; everything else in the store may change whenever the store lock is not held.
-         interference={'transport': dict(props=['C06'], havoc=['self._packet_store._dict'], stable=[]),
-                       'store': dict(props=['C06'], havoc=['self._packet_store._dict'], stable=[('G.held_transport', PEND(STORE))])},
+         interference={'transport': dict(props=['C06', 'C01'], havoc=['self._packet_store._dict'], stable=[]),
+                       'store': dict(props=['C06', 'C01'], havoc=['self._packet_store._dict'], stable=[('G.held_transport', PEND(STORE))])},
          call_asserts={
-             'IOManager._read_packet_from_device': [('C06', 'wire-is-read-only-when-nothing-is-parked-for-this-stream', 'not ' + PEND(STORE))],
+             'IOManager._read_packet_from_device': [('C06,C01', 'wire-is-read-only-when-nothing-is-parked-for-this-stream', 'not ' + PEND(STORE))],
              'Store.find': STORE_OWNED, 'Store.find_allow_zeros': STORE_OWNED, 'Store.get': STORE_OWNED,
              'Store.put': STORE_OWNED + [('C06', 'parks-the-foreign-packet-unchanged-under-its-own-key',
                                           '_arg_arg0 == arg0 and _arg_arg1 == arg1 and _arg_cmd == cmd and _arg_data == data and not '
@@ -236,7 +236,7 @@ contract('IOManager.send',
                   ('C11', 'duration', SEND_DUR),
                   'G.now >= old(G.now) and G.cpu >= old(G.cpu)'],
          raises={'struct.error': [('C02', 'unframeable-writes-nothing', 'G.peer_rx == old(G.peer_rx) and G.nwrites == old(G.nwrites)'), ('C06,C12', 'locks-released', UNLOCKED),
-                                  'G.now >= old(G.now) and G.cpu >= old(G.cpu)'],
+                                  ('C11', 'duration', SEND_DUR), 'G.now >= old(G.now) and G.cpu >= old(G.cpu)'],
                  'AdbTimeoutError': [('C06,C12', 'locks-released', UNLOCKED), ('C11', 'duration', SEND_DUR), 'G.now >= old(G.now) and G.cpu >= old(G.cpu)'],
                  '*': [('C06,C12', 'locks-released', UNLOCKED), ('C11', 'duration', SEND_DUR),
                        'G.now >= old(G.now) and G.cpu >= old(G.cpu)']})
